@@ -215,6 +215,14 @@ def oracle(lines, io, spec=None):
         a = aspec[i][3:] if i < len(aspec) and aspec[i][:3] in ('ok ', 'f2 ') else None
         b = nspec[i][3:] if i < len(nspec) and nspec[i][:3] in ('ok ', 'f2 ') else None
         return a is None or b is None or io[i] in (a, b)
+    # "the affected call reports an error": a delete that has to append its marker to the active blob (only_if_presented
+    # = 0 always does) and whose append was made to fail must not return Ok
+    for i in range(fi + 1, min(ci, len(io))):
+        t = lines[i].split()
+        if t[0] == 'D' and t[-1] == '0' and lines[i - 1].startswith('fail append .blob 0') and ' Err ' not in io[i] and 'counts' in ''.join(lines) and \
+                any(l == 'create_active' or l.startswith('W ') for l in lines[max(0, i - 6):i - 1]):
+            fails.append('line %d `%s`: the append of the deletion record to the active blob was made to fail, the call returned `%s`' % (i, lines[i], io[i]))
+            break
     # session: reads must equal the specification over acknowledged operations
     for i in range(fi, min(close_i, len(io))):
         l = lines[i]
